@@ -102,6 +102,7 @@ def setup():
         return out
 
     runner.register_runner(OP_TYPE, verif_op, async_runner=True)
+    _READY["verif_op_fn"] = verif_op
     params.register_param_source_for_name(SOURCE, VerifSource)
 
     # observe the tuples the schedule yields (expected scheduled time, sample type, progress)
